@@ -102,12 +102,14 @@ type W struct {
 	// Stops records SimEngine.Stop calls (controller name, step).
 	EngineLog []string
 	// hooks for property oracles
-	OnXRDone      func(key types.NamespacedName, t *sim.Task, startSeq int, res reconcile.Result, err error)
-	OnClaimDone   func(key types.NamespacedName, t *sim.Task, startSeq int, res reconcile.Result, err error)
-	OnStart       func(ctrl string, key types.NamespacedName, t *sim.Task)
-	OnEngineStop  func(name string)
-	OnFnTransport func(*simfn.Transport)
-	runners       []*xfn.PackagedFunctionRunner
+	// EndpointPending: the next function revision added gets no endpoint (yet)
+	EndpointPending bool
+	OnXRDone        func(key types.NamespacedName, t *sim.Task, startSeq int, res reconcile.Result, err error)
+	OnClaimDone     func(key types.NamespacedName, t *sim.Task, startSeq int, res reconcile.Result, err error)
+	OnStart         func(ctrl string, key types.NamespacedName, t *sim.Task)
+	OnEngineStop    func(name string)
+	OnFnTransport   func(*simfn.Transport)
+	runners         []*xfn.PackagedFunctionRunner
 }
 
 // recorder implements event.Recorder.
@@ -379,6 +381,11 @@ func (w *W) AddFunctionRevision(name string, n int, active bool) error {
 		Spec: pkgv1.FunctionRevisionSpec{PackageRevisionSpec: pkgv1.PackageRevisionSpec{DesiredState: st, Package: "xpkg.example.org/" + name + ":v1", Revision: int64(n)}}}
 	if err := w.Direct.Create(ctx, rev); err != nil {
 		return err
+	}
+	if w.EndpointPending {
+		// the package manager has not recorded the new revision's endpoint yet
+		w.EndpointPending = false
+		return nil
 	}
 	rev.Status.Endpoint = fmt.Sprintf("dns:///%s-r%d.crossplane-system:9443", name, n)
 	return w.Direct.Status().Update(ctx, rev)
